@@ -27,6 +27,16 @@ if len(docs) > 1:
     # the builds replay the same seeds: distinct cases are counted once (primary build)
     out["wall_s"] = sum(d["wall_s"] for d in docs)
     out["violations"] = sum(d.get("violations", 0) for d in docs)
+fp = os.path.join(root, "evidence", f"{prop}.fuzz.json")
+if os.path.exists(fp):
+    cov["coverage_guided"] = json.load(open(fp))
+    cov["evaluations"] += cov["coverage_guided"]["fuzz_runs"]
+    os.remove(fp)
+mp = os.path.join(root, "evidence", f"{prop}.miri.json")
+if os.path.exists(mp):
+    cov["miri"] = json.load(open(mp))
+    cov["evaluations"] += cov["miri"]["miri_cases"]
+    os.remove(mp)
 json.dump(out, open(os.path.join(root, "evidence", f"{prop}.json"), "w"), indent=1)
 for p in parts:
     os.remove(p)
